@@ -98,6 +98,8 @@ package engine
 //@   ensures[the-double-quotes-flag-of-the-vm] result.doubleQuotes == vm.doubleQuotes
 //@   ensures[reads-from-the-reader-given] result.lexer.input.base == r
 //@   ensures[no-variables-no-placeholder-yet] len(result.Vars) == 0 && result.placeholder == 0 && len(result.args) == 0
+//@   at-call newRuneRingBuffer requires[the-look-ahead-buffer-is-put-on-the-reader-given] a0 == r
+//@   ensures[the-lexer-reads-the-reader-given-through-an-empty-look-ahead-buffer] result.lexer.input.base == r && result.lexer.input.start == 0 && result.lexer.input.end == 0
 
 //@ -- named so that its result can be bound in prefix and infix; nothing is claimed about it (any result, any effect)
 //@ func (*Parser).op
